@@ -325,6 +325,25 @@ theorem mismatch_refused (cfg : Cfg R T) (d : Disk R T) (c : Clock) (outs : List
         · subst hkj; rw [hbad] at hk'; cases hk'; rfl
         · exact absurd hk' (hall k (List.mem_range.mp hk) hkj e)
 
+/-- **A refused restart changes nothing (R4).**  If the partial results of the FIRST
+    variation cannot be used (saved for other parameters: `ValueError`; unreadable:
+    `LoadError`), `simulate()` raises that error having done nothing at all: no call,
+    no file-system step, no result — so the folder is exactly as it was and a
+    following restart with the right parameters behaves as if the refused one had
+    never happened. -/
+theorem refused_restart_changes_nothing (cfg cfgOk : Cfg R T) (d : Disk R T) (c c' : Clock)
+    (outs outs' : List (Outcome R)) (hn : 0 < cfg.nvar) (e : Err) (h : loadPart cfg d 0 = .error e) :
+    simC cfg d c outs = ⟨[], [], [], outs, c, some e⟩ ∧
+    d.applyAll (simC cfg d c outs).trace = d ∧
+    simC cfgOk (d.applyAll (simC cfg d c outs).trace) c' outs' = simC cfgOk d c' outs' := by
+  have h1 : simC cfg d c outs = ⟨[], [], [], outs, c, some e⟩ := by
+    obtain ⟨k, hk⟩ : ∃ k, cfg.nvar = k + 1 := ⟨cfg.nvar - 1, by omega⟩
+    unfold simC
+    rw [hk, List.range_succ_eq_map]
+    have hres : (runVarC cfg 0 d c outs).res = .error e := by rw [runVarC_error cfg 0 d c outs e h]
+    rw [simVarsC_cons_error cfg 0 _ d c outs e hres, runVarC_error cfg 0 d c outs e h]
+  refine ⟨h1, ?_, ?_⟩ <;> rw [h1] <;> rfl
+
 /-! ## The in-place discipline (the code before the `fix:` commit) -/
 
 /-- the statement that fails for in-place writing: "after every crash point of a run
